@@ -2,6 +2,8 @@ package rules
 
 import (
 	"go/ast"
+	"go/token"
+	"go/types"
 	"strings"
 
 	"lachk/core"
@@ -23,7 +25,7 @@ var c01Roots = []string{
 
 func init() {
 	register("C01", "other", "T11 Determinism effects + T10 MapOrder over the consensus call graph, provenance (canonical iteration order), T3/T4 (re-vote after every decision)",
-		"Decides three necessary conditions of order-independent agreement: (det) no function reachable from the consensus entry points inside the consensus packages (abft, election, vecengine, vecfc, pos, lachesis, adapters) draws randomness or time, starts goroutines or selects, or ranges over a map in a way that lets the iteration order reach a result — two instances fed the same events cannot diverge through these effects; the debug helpers that do range over maps are shown unreachable rather than trusted; (canon) the Atropos choice and the cheater list iterate the validator set through its canonical sorted view; (revote) after every decided, non-sealing frame the known roots are re-processed before the next root is handed to the election, Bootstrap ends with that re-processing, and the re-processing loop stops only when no further frame is decided or the epoch is sealed. Agreement itself (same blocks for every DAG and delivery order) is a runtime fact and is not decided.",
+		"Decides four necessary conditions of order-independent agreement: (det) no function reachable from the consensus entry points inside the consensus packages (abft, election, vecengine, vecfc, pos, lachesis, adapters) draws randomness or time, starts goroutines or selects, or ranges over a map in a way that lets the iteration order reach a result — two instances fed the same events cannot diverge through these effects; the debug helpers that do range over maps are shown unreachable rather than trusted; (canon) the Atropos choice and the cheater list iterate the validator set through its canonical sorted view; (revote) after every decided, non-sealing frame the known roots are re-processed before the next root is handed to the election, Bootstrap ends with that re-processing, and the re-processing loop stops only when no further frame is decided or the epoch is sealed; between a call that reports 'sealed' (onFrameDecided, bootstrapElection) and the next live vote of the same root the 'not sealed' edge of that very result is taken; (slots) live voting and registration enumerate the same frame slots selfParentFrame+1..root.Frame() (bounds compared up to arithmetic rewriting), each vote / table record / cached-list entry is made in its own iteration for the slot (iteration's frame, root.Creator(), root.ID()), so the roots table and the cached per-frame lists that GetFrameRoots answers from hold the same slots. Agreement itself (same blocks for every DAG and delivery order) is a runtime fact and is not decided.",
 		[]string{"storage (kvdb interfaces) is a deterministic ordered map: the traversal stops at kvdb and at application callbacks", "reachability follows static calls and interface calls resolved to module methods; function-valued fields are covered by listing their targets as entry points"},
 		runC01)
 }
@@ -82,29 +84,69 @@ func runC01(c *core.Ctx) {
 	})
 
 	c.Clause("C01.canon", func() {
-		type site struct{ fn, what string }
-		for _, s := range []site{{"abft.Lachesis.applyAtropos", "cheater list"}, {"abft/election.Election.chooseAtropos", "Atropos choice"}} {
-			f := c.Fn(s.fn)
-			n := 0
-			f.InspectOwn(func(nd ast.Node) bool {
-				rs, ok := nd.(*ast.RangeStmt)
-				if !ok {
-					return true
-				}
-				n++
-				src := rs.X
-				if v := varOf(f, src); v != nil {
-					for _, a := range assignsToVar(f, v) {
-						if a.RHS != nil {
-							src = a.RHS
-						}
+		type site struct {
+			fn, what string
+			// choice: positions at which the order of iteration becomes the result (appends to the cheater
+			// list; returns of a chosen Atropos)
+			choice func(f *core.FuncInfo) []token.Pos
+		}
+		cheaterAppends := func(f *core.FuncInfo) []token.Pos {
+			var out []token.Pos
+			for _, a := range assignments(f) {
+				if ap := isCallTo(f, a.RHS, "builtin.append"); ap != nil && a.RHS != nil {
+					if t, ok := f.Info().TypeOf(a.LHS).Underlying().(*types.Slice); ok && strings.HasSuffix(t.Elem().String(), "idx.ValidatorID") {
+						out = append(out, a.Stmt.Pos())
 					}
 				}
-				ok = isCallTo(f, src, "inter/pos.Validators.SortedIDs", "inter/pos.Validators.IDs") != nil
-				c.Check(ok, s.what+" iterates the canonical validator order", "provenance", rs.Pos(), "ranges over Validators.SortedIDs()/IDs() (the cached canonical order)", "the "+s.what+" does not iterate the validator set's canonical order")
-				return true
-			})
-			c.ExpectAtLeast("loops in "+short(s.fn), n, 1)
+			}
+			return out
+		}
+		chosenReturns := func(f *core.FuncInfo) []token.Pos {
+			var out []token.Pos
+			for _, rp := range f.ReturnPoints() {
+				r := rp.Node().(*ast.ReturnStmt)
+				if len(r.Results) == 2 && !core.IsNil(f.Info(), r.Results[0]) {
+					out = append(out, r.Pos())
+				}
+			}
+			return out
+		}
+		for _, s := range []site{{"abft.Lachesis.applyAtropos", "cheater list", cheaterAppends}, {"abft/election.Election.chooseAtropos", "Atropos choice", chosenReturns}} {
+			f := c.Fn(s.fn)
+			// the loops whose iteration order reaches the result: those around a choice site; if the
+			// choice is made outside every loop, all loops of the function
+			var loops []ast.Stmt
+			seen := map[ast.Stmt]bool{}
+			for _, pos := range s.choice(f) {
+				if l := enclosingLoop(f, pos); l != nil && !seen[l] {
+					seen[l] = true
+					loops = append(loops, l)
+				}
+			}
+			if len(loops) == 0 {
+				f.InspectOwn(func(nd ast.Node) bool {
+					switch nd.(type) {
+					case *ast.RangeStmt, *ast.ForStmt:
+						loops = append(loops, nd.(ast.Stmt))
+					}
+					return true
+				})
+			}
+			for _, l := range loops {
+				ok := false
+				if it, isIt := core.IterationOf(f, l, c01Resolver(f)); isIt && it.FromZero {
+					// over the canonical id slice (ranged, or indexed 0..len-1), or over the validator
+					// indexes 0..Len()-1 (index = position in the canonical order)
+					if it.Coll != nil && isCallTo(f, it.Coll, "inter/pos.Validators.SortedIDs", "inter/pos.Validators.IDs") != nil {
+						ok = true
+					}
+					if it.Coll == nil && it.Bound != nil && isCallTo(f, core.StripConv(f.Info(), it.Bound), "inter/pos.Validators.Len") != nil {
+						ok = true
+					}
+				}
+				c.Check(ok, s.what+" iterates the canonical validator order", "provenance", l.Pos(), "iterates Validators.SortedIDs()/IDs() (the cached canonical order) or the validator indexes 0..Len()-1, in index order", "the "+s.what+" does not iterate the validator set's canonical order")
+			}
+			c.ExpectAtLeast("loops in "+short(s.fn), len(loops), 1)
 		}
 		// IDs/SortedIDs return the cached canonical slice
 		for _, m := range []string{"IDs", "SortedIDs"} {
@@ -127,9 +169,40 @@ func runC01(c *core.Ctx) {
 		decided := he.CallsTo("abft.Orderer.onFrameDecided")
 		again := he.CallsTo("abft/election.Election.ProcessRoot")
 		boots := he.CallsTo("abft.Orderer.bootstrapElection")
-		c.Need(len(decided) == 1 && len(again) == 1, "handleElection: one ProcessRoot and one onFrameDecided site")
-		ok, wit := he.MustPassBetween(decided[0].Pt, core.Points(boots), again[0].Pt)
-		c.Check(ok && len(boots) > 0, "known roots are re-processed after a decision before the next root votes", "T3 PostDominates (loop)", decided[0].Pos(), "every path from onFrameDecided back to ProcessRoot passes bootstrapElection()", "after a frame is decided the election can continue with the next root without re-processing the known roots of the new frame (instances that received events in another order decide differently): "+he.DescribePath(wit))
+		c.Need(len(decided) >= 1 && len(again) >= 1, "handleElection casts the live vote (ProcessRoot) and applies a decision (onFrameDecided)")
+		ok := len(boots) > 0
+		var wit []core.Point
+		for _, d := range decided {
+			for _, a := range again {
+				if o, w := he.MustPassBetween(d.Pt, core.Points(boots), a.Pt); !o {
+					ok, wit = false, w
+				}
+			}
+		}
+		c.Check(ok, "known roots are re-processed after a decision before the next root votes", "T3 PostDominates (loop)", decided[0].Pos(), "every path from onFrameDecided back to ProcessRoot passes bootstrapElection()", "after a frame is decided the election can continue with the next root without re-processing the known roots of the new frame (instances that received events in another order decide differently): "+he.DescribePath(wit))
+		// A decision that seals the epoch resets the election to the new epoch's validators and first
+		// frame. The remaining frame slots of the current root belong to the old epoch: if one of them is
+		// still voted, the new election is fed a root of another epoch. Whether that happens depends on
+		// which root happened to trigger the decision, i.e. on the delivery order. So between a call that
+		// reports 'sealed' and the next live vote, the 'not sealed' edge of that very result must be taken.
+		for _, cs := range he.CallsTo("abft.Orderer.onFrameDecided", "abft.Orderer.bootstrapElection") {
+			key := "a sealing decision ends the voting of the current root (" + short(cs.Name) + ")"
+			sv := c01ResultVar(he, cs.Call, 0)
+			if sv == nil {
+				c.Fail(key, "T4 GuardedBy (reaching definition)", cs.Pos(), "the 'sealed' result of "+short(cs.Name)+" is discarded in handleElection: after a decision that seals the epoch the loop goes on feeding the remaining frame slots of the old epoch's root into the new epoch's election (the instance that decided through this root fails or diverges, others do not)")
+				continue
+			}
+			// targets: the next live vote, or a point where the result variable is overwritten (a test
+			// of the variable after that point speaks about another call)
+			targets := core.Points(again)
+			for _, a := range assignsToVar(he, sv) {
+				if a.Pt != cs.Pt {
+					targets = append(targets, a.Pt)
+				}
+			}
+			path, found := core.PathQuery{F: he, From: cs.Pt, FromAfter: true, Target: core.PointSet(targets...), AvoidEdge: he.GuardEdges(c01BoolFact(he, sv, false))}.Find()
+			c.Check(!found, key, "T4 GuardedBy (reaching definition)", cs.Pos(), "every path from the call to the next ProcessRoot takes the edge on which its 'sealed' result is false", "after "+short(cs.Name)+" reported that the epoch was sealed the current root can still vote with its remaining frame slots, now in the new epoch's election ("+he.DescribePath(path)+"): the instance that decided through this root fails or diverges, others do not")
+		}
 		bs := c.Fn("abft.Orderer.Bootstrap")
 		bb := bs.CallsTo("abft.Orderer.bootstrapElection")
 		okB := len(bb) >= 1
